@@ -9,6 +9,7 @@
    or writes to its target file. *)
 From Coq Require Import List Ascii String ZArith Bool Arith.
 From YP Require Import Outcome PyStr Cli CliSpec CliGetDiff CliValidate CliMerge CliSetPaths.
+From YP Require Import MergeConfig MultiDoc CliLibSpec CliMergeModes.
 Import ListNotations.
 Open Scope string_scope.
 Open Scope list_scope.
@@ -147,7 +148,7 @@ Theorem C16_merge_output :
   forall merge2 flow jview estr a tty srcs stdin_src nerr vl n',
     merges_clean merge2 ->
     ma_mode a = CondenseAll ->
-    merge_validate a (List.length srcs) (map s_name srcs) tty = (nerr, vl, n') -> nerr = 0 ->
+    merge_validate a (List.length srcs) (map s_name srcs) tty = (nerr, vl, n') -> nerr = 0 -> ma_config_err a = None ->
     Forall (src_loads estr) srcs ->
     (stdin_waits_m a tty srcs = true -> src_loads estr stdin_src) ->
     ma_backup a && negb (ma_overwrite_exists a) = false ->
@@ -171,7 +172,7 @@ Print Assumptions C16_merge_error_no_output.
 
 Definition ex_merge2 (l r : nat) : option ufam * nat := (None, 10 * l + r).
 Definition ex_args_merge :=
-  mkmerge true (mknoise false false false) false false "" false "" false false FAuto CondenseAll "".
+  mkmerge true (mknoise false false false) false false "" false "" false false FAuto CondenseAll "" None.
 Example C16_merge_example :
   cli_merge_main ex_merge2 (fun _ => false) (fun d => d) 9 ex_args_merge true
     [ex_src "a.yaml" [1; 2]; ex_src "b.yaml" [3]] (ex_src "-" []) =
@@ -188,10 +189,125 @@ Proof. vm_compute. reflexivity. Qed.
 Example C16_merge_example_stdin_only :
   (* the repaired case: no YAML_FILE, a waiting STDIN supplies the documents *)
   cli_merge_main ex_merge2 (fun _ => false) (fun d => d) 9
-    (mkmerge false (mknoise false false false) false false "" false "" false false FAuto CondenseAll "")
+    (mkmerge false (mknoise false false false) false false "" false "" false false FAuto CondenseAll "" None)
     false [] (ex_src "-" [4; 5]) =
   mkrun (Exit 0) [ODump false [45]] [].
 Proof. vm_compute. reflexivity. Qed.
+
+(* ---- the three multi-document modes ARE the library's (Model/MultiDoc.v, the model of C18) ---- *)
+
+(* merge_docs of the glue on a source that loads = MultiDoc.merge_docs on the loaded stream, for ANY
+   pairwise merge (failing steps included): same documents, same exit state, same exception family *)
+Theorem C16_merge_docs_is_library :
+  forall merge2 estr mode lhs s ds,
+    get_doc_mergers estr s = MgOk ds ->
+    same_drive (Cli.merge_docs merge2 estr mode lhs s)
+               (MultiDoc.merge_docs nat (lib_merge2 merge2) (Ok (lib_mode mode)) (Some ds) lhs).
+Proof. exact merge_docs_adapt. Qed.
+Print Assumptions C16_merge_docs_is_library.
+
+(* -M merge_across / -M matrix_merge, every source loads: when the library-level drivers, applied
+   stream by stream in command-line order (named files, then a waiting STDIN; the first non-empty
+   stream supplies the left-hand documents), end with state 0 and the documents d :: rest, the run
+   exits 0 and delivers exactly those documents - the first decides the output format *)
+Theorem C16_merge_modes_output :
+  forall merge2 flow jview estr a tty srcs stdin_src nerr vl n',
+    ma_mode a <> CondenseAll ->
+    merge_validate a (List.length srcs) (map s_name srcs) tty = (nerr, vl, n') -> nerr = 0 -> ma_config_err a = None ->
+    Forall (src_loads estr) srcs ->
+    (stdin_waits_m a tty srcs = true -> src_loads estr stdin_src) ->
+    ma_backup a && negb (ma_overwrite_exists a) = false ->
+    forall d rest,
+      lib_merge_streams merge2 (ma_mode a) [] (merge_streams estr a tty srcs stdin_src) = Ok (d :: rest, 0) ->
+      r_status (cli_merge_main merge2 flow jview estr a tty srcs stdin_src) = Exit 0 /\
+      delivered (cli_merge_main merge2 flow jview estr a tty srcs stdin_src) =
+        [(doc_is_json flow a d,
+          prepared flow jview a (prepared flow jview a d) :: map (prepared flow jview a) rest)].
+Proof. exact merge_modes_output. Qed.
+Print Assumptions C16_merge_modes_output.
+
+(* ... and when a step of the selected mode fails, its exit state (31/32, 41/42) is the tool's exit
+   status and nothing is delivered *)
+Theorem C16_merge_modes_error :
+  forall merge2 flow jview estr a tty srcs stdin_src nerr vl n',
+    ma_mode a <> CondenseAll ->
+    merge_validate a (List.length srcs) (map s_name srcs) tty = (nerr, vl, n') -> nerr = 0 -> ma_config_err a = None ->
+    Forall (src_loads estr) srcs ->
+    (stdin_waits_m a tty srcs = true -> src_loads estr stdin_src) ->
+    forall out n,
+      lib_merge_streams merge2 (ma_mode a) [] (merge_streams estr a tty srcs stdin_src) = Ok (out, S n) ->
+      r_status (cli_merge_main merge2 flow jview estr a tty srcs stdin_src) = Exit (S n) /\
+      delivered (cli_merge_main merge2 flow jview estr a tty srcs stdin_src) = [].
+Proof. exact merge_modes_error. Qed.
+Print Assumptions C16_merge_modes_error.
+
+(* with C18_across: no step raises -> the i-th document of every later stream is merged into the
+   i-th document so far, surplus documents are appended (MultiDoc.across_spec folded over the streams) *)
+Theorem C16_merge_across_output :
+  forall merge2 flow jview estr a tty srcs stdin_src nerr vl n',
+    merges_clean merge2 ->
+    ma_mode a = MergeAcross ->
+    merge_validate a (List.length srcs) (map s_name srcs) tty = (nerr, vl, n') -> nerr = 0 -> ma_config_err a = None ->
+    Forall (src_loads estr) srcs ->
+    (stdin_waits_m a tty srcs = true -> src_loads estr stdin_src) ->
+    ma_backup a && negb (ma_overwrite_exists a) = false ->
+    forall d rest,
+      across_streams merge2 (merge_streams estr a tty srcs stdin_src) = d :: rest ->
+      r_status (cli_merge_main merge2 flow jview estr a tty srcs stdin_src) = Exit 0 /\
+      delivered (cli_merge_main merge2 flow jview estr a tty srcs stdin_src) =
+        [(doc_is_json flow a d,
+          prepared flow jview a (prepared flow jview a d) :: map (prepared flow jview a) rest)].
+Proof. exact merge_across_output. Qed.
+Print Assumptions C16_merge_across_output.
+
+(* with C18_matrix: no step raises -> every document of every later stream is merged, in order, into
+   every document so far *)
+Theorem C16_merge_matrix_output :
+  forall merge2 flow jview estr a tty srcs stdin_src nerr vl n',
+    merges_clean merge2 ->
+    ma_mode a = MatrixMerge ->
+    merge_validate a (List.length srcs) (map s_name srcs) tty = (nerr, vl, n') -> nerr = 0 -> ma_config_err a = None ->
+    Forall (src_loads estr) srcs ->
+    (stdin_waits_m a tty srcs = true -> src_loads estr stdin_src) ->
+    ma_backup a && negb (ma_overwrite_exists a) = false ->
+    forall d rest,
+      matrix_streams merge2 (merge_streams estr a tty srcs stdin_src) = d :: rest ->
+      r_status (cli_merge_main merge2 flow jview estr a tty srcs stdin_src) = Exit 0 /\
+      delivered (cli_merge_main merge2 flow jview estr a tty srcs stdin_src) =
+        [(doc_is_json flow a d,
+          prepared flow jview a (prepared flow jview a d) :: map (prepared flow jview a) rest)].
+Proof. exact merge_matrix_output. Qed.
+Print Assumptions C16_merge_matrix_output.
+
+Definition ex_args_mode (m : Cli.mdmode) :=
+  mkmerge true (mknoise false false false) false false "" false "" false false FAuto m "" None.
+Definition ex_mode_srcs := [ex_src "a.yaml" [1; 2]; ex_src "b.yaml" [3; 4; 5]].
+Example C16_merge_across_example :
+  cli_merge_main ex_merge2 (fun _ => false) (fun d => d) 9 (ex_args_mode MergeAcross) true ex_mode_srcs (ex_src "-" []) =
+    mkrun (Exit 0) [ODump false [13; 24; 5]] [] /\
+  across_streams ex_merge2 (merge_streams 9 (ex_args_mode MergeAcross) true ex_mode_srcs (ex_src "-" [])) = [13; 24; 5].
+Proof. split; vm_compute; reflexivity. Qed.
+Example C16_merge_matrix_example :
+  cli_merge_main ex_merge2 (fun _ => false) (fun d => d) 9 (ex_args_mode MatrixMerge) true ex_mode_srcs (ex_src "-" []) =
+    mkrun (Exit 0) [ODump false [1345; 2345]] [] /\
+  matrix_streams ex_merge2 (merge_streams 9 (ex_args_mode MatrixMerge) true ex_mode_srcs (ex_src "-" [])) = [1345; 2345].
+Proof. split; vm_compute; reflexivity. Qed.
+Example C16_merge_modes_example_hyps :
+  ma_mode (ex_args_mode MergeAcross) <> CondenseAll /\
+  Forall (src_loads 9) ex_mode_srcs /\
+  merge_validate (ex_args_mode MergeAcross) 2 ["a.yaml"; "b.yaml"] true = (0, [], mknoise true false false) /\
+  stdin_waits_m (ex_args_mode MergeAcross) true ex_mode_srcs = false.
+Proof.
+  split; [discriminate|]. split; [|split; reflexivity].
+  repeat constructor; eexists; reflexivity.
+Qed.
+Example C16_merge_modes_example_error :
+  (* -M merge_across, the second pair raises MergeException: state 31 is the exit status, nothing delivered *)
+  let m2 := fun l r => if Nat.eqb r 4 then (Some UMerge, l) else (None, 10 * l + r) in
+  lib_merge_streams m2 MergeAcross [] (merge_streams 9 (ex_args_mode MergeAcross) true ex_mode_srcs (ex_src "-" [])) = Ok ([13; 2], 31) /\
+  cli_merge_main m2 (fun _ => false) (fun d => d) 9 (ex_args_mode MergeAcross) true ex_mode_srcs (ex_src "-" []) =
+    mkrun (Exit 31) [OHint] [].
+Proof. split; vm_compute; reflexivity. Qed.
 
 (* ------------------------------------------------------------------ *)
 (* yaml-set *)
@@ -199,43 +315,80 @@ Proof. vm_compute. reflexivity. Qed.
 (* exit 0 => exactly one document is delivered (written to the file, or dumped to STDOUT when
    the document came from STDIN) and it is the library's post-state of the loaded document
    (for an empty file: of the freshly built one): --saveto applied first, then the change the
-   options select; every other ending - a failed --check (20), an unmatched path that must
+   options select - precisely, what the text written for that state loads back to: [yamlview] of it for
+   YAML (the state itself when ruamel's emitter is faithful, CliSpec.dump_faithful), its JSON view for
+   JSON (flow-style root or a .json name); every other ending - a failed --check (20), an unmatched path that must
    exist (1), a library error, an unreadable file - delivers nothing *)
 Theorem C16_set_file :
-  forall built saveto change flow a tty valfile_ok load gather,
-    (r_status (cli_set_main built saveto change flow a tty valfile_ok load gather) = Exit 0 /\
+  forall built saveto change flow dump_fail jsonview yamlview change_verb a tty valfile_err load gather,
+    (r_status (cli_set_main built saveto change flow dump_fail jsonview yamlview change_verb a tty valfile_err load gather) = Exit 0 /\
      exists d0 j,
        (get_yaml_data load = L1Ok (Some d0) \/ (get_yaml_data load = L1Ok None /\ built = LOk d0)) /\
-       delivered (cli_set_main built saveto change flow a tty valfile_ok load gather) =
-         [(j, [set_post a saveto change d0])]) \/
-    (r_status (cli_set_main built saveto change flow a tty valfile_ok load gather) <> Exit 0 /\
-     delivered (cli_set_main built saveto change flow a tty valfile_ok load gather) = []).
+       delivered (cli_set_main built saveto change flow dump_fail jsonview yamlview change_verb a tty valfile_err load gather) =
+         [(j, [set_written a flow yamlview jsonview (set_post a saveto change d0)])]) \/
+    (r_status (cli_set_main built saveto change flow dump_fail jsonview yamlview change_verb a tty valfile_err load gather) <> Exit 0 /\
+     delivered (cli_set_main built saveto change flow dump_fail jsonview yamlview change_verb a tty valfile_err load gather) = []).
 Proof. exact set_file. Qed.
 Print Assumptions C16_set_file.
 
 Theorem C16_set_check_stops :
-  forall saveto change flow a n file d0 ns s h,
+  forall saveto change flow dump_fail jsonview yamlview change_verb a n file d0 ns s h,
     sa_check a = true -> set_check a ns = CheckStop s h ->
-    set_apply saveto change flow a n file d0 ns = mkrun s (hints h) [].
+    set_apply saveto change flow dump_fail jsonview yamlview change_verb a n file d0 ns = mkrun s (hints h) [].
 Proof. exact set_check_stops. Qed.
 Print Assumptions C16_set_check_stops.
+
+(* the YAML dumper refuses the changed document (a tagged non-string scalar): the run ends with that
+   exception, delivers nothing, and - after the fix - a file target is given its original bytes back *)
+Theorem C16_set_dump_failure :
+  forall a n file fl c yd jd d,
+    negb fl && negb (sa_is_json_ext a) = true ->
+    r_status (set_write a n file fl (Some c) yd jd d) = Uncaught (UCrash c) /\
+    delivered (set_write a n file fl (Some c) yd jd d) = [] /\
+    (is_dash file = false -> r_fx (set_write a n file fl (Some c) yd jd d) = [ERestore]).
+Proof. exact set_write_dump_fails. Qed.
+Print Assumptions C16_set_dump_failure.
 
 Definition ex_args_set (check saveto mustexist : bool) :=
   mkset "doc.yaml" false (mknoise false false false) (Some "new") false false false false None false false ""
         false check saveto false mustexist true false false false false false 62 false.
 Example C16_set_example :
-  cli_set_main (LRaise UYpe) (fun d => LOk (d + 100)) (fun d => ChOk (d + 1)) (fun _ => false)
-    (ex_args_set true true false) true false (R1Doc (Some 5)) (LOk [mksn false (LOk false) true]) =
+  cli_set_main (LRaise UYpe) (fun d => LOk (d + 100)) (fun d => ChOk (d + 1)) (fun _ => false) (fun _ => None) (fun d => d) (fun d => d) (fun _ => 0)
+    (ex_args_set true true false) true None (R1Doc (Some 5)) (LOk [mksn false (LOk false) true]) =
   mkrun (Exit 0) [] [EBackup; EWrite false [106]].
 Proof. vm_compute. reflexivity. Qed.
+(* "a file that reloads to the document the set/delete model predicts": true of a YAML write whenever
+   ruamel's emitter is faithful on the post-state ... *)
+Theorem C16_set_reloads_partial :
+  forall a flow yamlview jsonview d,
+    dump_faithful yamlview -> negb (flow d) && negb (sa_is_json_ext a) = true ->
+    set_written a flow yamlview jsonview d = d.
+Proof. exact set_written_faithful. Qed.
+Print Assumptions C16_set_reloads_partial.
+(* ... and false otherwise.  Real witness (known finding ruamel_block_scalar_indent): `yaml-set -g a
+   -a '  padded' -F literal` writes `a: |4-` + `    padded`, which loads back as "padded" *)
+Theorem C16_set_reloads_refuted :
+  exists a flow yamlview jsonview d, set_written a flow yamlview jsonview d <> d.
+Proof.
+  exists (ex_args_set false false false), (fun _ => false), S, (fun d => d), 0. vm_compute. discriminate.
+Qed.
+
 Example C16_set_example_check_fails :
-  cli_set_main (LRaise UYpe) (fun d => LOk (d + 100)) (fun d => ChOk (d + 1)) (fun _ => false)
-    (ex_args_set true false false) true false (R1Doc (Some 5)) (LOk [mksn false (LOk false) false]) =
+  cli_set_main (LRaise UYpe) (fun d => LOk (d + 100)) (fun d => ChOk (d + 1)) (fun _ => false) (fun _ => None) (fun d => d) (fun d => d) (fun _ => 0)
+    (ex_args_set true false false) true None (R1Doc (Some 5)) (LOk [mksn false (LOk false) false]) =
   mkrun (Exit 20) [] [].
 Proof. vm_compute. reflexivity. Qed.
+Example C16_set_example_dump_fails :
+  (* yaml-set -g a -T '!x' on an integer: the change succeeds, the dumper raises TypeError *)
+  cli_set_main (LRaise UYpe) (fun d => LOk d) (fun d => ChOk (d + 1)) (fun _ => false) (fun _ => Some "TypeError") (fun d => d) (fun d => d) (fun _ => 0)
+    (mkset "doc.yaml" false (mknoise false false false) None false false false false None false false ""
+           true false false false false true false false false false false 62 false)
+    true None (R1Doc (Some 5)) (LOk [mksn false (LOk false) true]) =
+  mkrun (Uncaught (UCrash "TypeError")) [] [ERestore].
+Proof. vm_compute. reflexivity. Qed.
 Example C16_set_example_unmatched :
-  cli_set_main (LRaise UYpe) (fun d => LOk d) (fun d => ChOk (d + 1)) (fun _ => false)
-    (ex_args_set false false true) true false (R1Doc (Some 5)) (LRaise UYpe) =
+  cli_set_main (LRaise UYpe) (fun d => LOk d) (fun d => ChOk (d + 1)) (fun _ => false) (fun _ => None) (fun d => d) (fun d => d) (fun _ => 0)
+    (ex_args_set false false true) true None (R1Doc (Some 5)) (LRaise UYpe) =
   mkrun (Exit 1) [] [].
 Proof. vm_compute. reflexivity. Qed.
 
@@ -323,3 +476,241 @@ Example C16_stdin_same_example :
   get_validate_errors (mkget "" false (mknoise false false false) false false false false) false = 0 /\
   holds_a_document (mkraw [1] None).
 Proof. repeat split; try reflexivity. left. discriminate. Qed.
+
+(* ================================================================== *)
+(* END TO END: the glue model composed with the library MODELS (adapters: Spec/CliLibSpec.v,
+   proofs: Proofs/CliCompose.v).  The abstract library results the theorems above quantify over are
+   instantiated here with what Model/Eval.v, Model/Diff.v and Model/PathsSearch.v / PathsPrint.v
+   compute. *)
+From Coq Require Import NArith Permutation.
+From YP Require Import PyVal Doc Generated PathParser PathPrinter Searches CliCompose.
+From YP Require Eval SpecC15 EvalGood EvalPure Diff C06Spec PathsSearch PathsPrint.
+
+(* ------------------------------------------------------------------ *)
+(* yaml-get = Cli.get_main around Eval.get_required (CliLibSpec.get_tool) *)
+
+(* the document loaded, the required query of the Eval model on it ended normally with [items]:
+   exit 0 exactly when items is non-empty, and then stdout's data lines are one rendering per item,
+   in query order.  Guards: the command line is valid; every matched container renders as JSON
+   (json.dumps / a recursive alias are oracles).  The value facts F (identity, str(), ISO texts,
+   the JSON outcome) are oracles; the KIND of each line (JSON / NUL / text) is computed from the
+   Eval result itself (CliLibSpec.kind_of). *)
+Theorem C16_get_end_to_end :
+  forall lit re_search nstr vstr kw_handler creator F doc_of a tty load qverb p od items,
+    get_validate_errors a tty = 0 -> get_yaml_data load = L1Ok od ->
+    get_query lit re_search nstr vstr kw_handler creator doc_of p od = (items, Eval.Done) ->
+    json_ok (map (result_obj F) items) = true ->
+    exists r, get_tool lit re_search nstr vstr kw_handler creator F doc_of a tty load qverb p = Some r /\
+      (r_status r = Exit 0 <-> items <> []) /\
+      (items <> [] -> data_lines (r_out r) = map render_node (map (result_obj F) items)).
+Proof. exact get_end_to_end. Qed.
+Print Assumptions C16_get_end_to_end.
+
+(* the query raises: no data line and a non-zero status (1: YAML Path error, 2: EYAML error) *)
+Theorem C16_get_end_to_end_error :
+  forall lit re_search nstr vstr kw_handler creator F doc_of a tty load qverb p od items e,
+    get_validate_errors a tty = 0 -> get_yaml_data load = L1Ok od ->
+    get_query lit re_search nstr vstr kw_handler creator doc_of p od = (items, Eval.Err e) ->
+    exists r, get_tool lit re_search nstr vstr kw_handler creator F doc_of a tty load qverb p = Some r /\
+      r_status r <> Exit 0 /\ data_lines (r_out r) = [] /\
+      (forall k, e = YPE k -> r_status r = Exit 1) /\ (e = EyamlExc -> r_status r = Exit 2).
+Proof. exact get_end_to_end_error. Qed.
+Print Assumptions C16_get_end_to_end_error.
+
+(* with C15 (collector-free paths, oracles that answer, clean keyword / creator models): the
+   composed tool always answers, with status 0 or 1, and 0 exactly when something matched *)
+Theorem C16_get_end_to_end_total :
+  forall lit re_search nstr vstr kw_handler creator F doc_of,
+    (forall s, exists r, lit s = Ok r /\ (forall c, r <> LCrash c)) ->
+    (forall p s, exists r, re_search p s = Ok r) ->
+    (forall inv k ps v c, EvalGood.sres EvalGood.coords_or_list (kw_handler inv k ps v c)) ->
+    (forall inv k ps v c, EvalPure.nomut (kw_handler inv k ps v c)) ->
+    (forall segs i v c, EvalGood.sres EvalGood.is_coords (creator segs i v c)) ->
+    forall a tty load qverb p od,
+      SpecC15.in_fragment p = true ->
+      get_validate_errors a tty = 0 -> get_yaml_data load = L1Ok od ->
+      let g := get_query lit re_search nstr vstr kw_handler creator doc_of p od in
+      json_ok (map (result_obj F) (fst g)) = true ->
+      exists r, get_tool lit re_search nstr vstr kw_handler creator F doc_of a tty load qverb p = Some r /\
+        (r_status r = Exit 0 \/ r_status r = Exit 1) /\
+        (r_status r = Exit 0 <-> (snd g = Eval.Done /\ fst g <> [])).
+Proof. exact get_end_to_end_total. Qed.
+Print Assumptions C16_get_end_to_end_total.
+
+Definition e2e_lit (s : string) : outcome litres :=
+  Ok (match py_int s with Some z => LVal (PInt z) | None => LFail end).
+Definition e2e_re (_ _ : string) : outcome reres := Ok (RMatch false).
+Definition e2e_kw (_ : bool) (_ : keyword) (_ : string) (_ : Eval.rval) (_ : Eval.ctx) : Eval.gen Eval.rval := (Eval.gnil).
+Definition e2e_cr (_ : list Eval.pseg) (_ : nat) (_ : Eval.rval) (_ : Eval.ctx) : Eval.gen Eval.rval := (Eval.gerr (YPE Generic)).
+Definition e2e_leaf (n : N) (v : pyval) : node := NLeaf (mkinfo n None false None) v.
+(* {a: 1, b: {c: x}} *)
+Definition e2e_doc : node :=
+  NMap (mkinfo 0 None true None)
+    [(e2e_leaf 1 (PStr "a"), e2e_leaf 2 (PInt 1));
+     (e2e_leaf 3 (PStr "b"), NMap (mkinfo 4 None true None) [(e2e_leaf 5 (PStr "c"), e2e_leaf 6 (PStr "x"))])].
+Definition e2e_facts : value_facts :=
+  mkfacts (fun v => match v with Eval.RNode n => N.to_nat (node_oid n) | _ => 99 end)
+          (fun _ => false) (fun _ => false)
+          (fun v => match v with Eval.RNode (NLeaf _ pv) => py_str pv | _ => "" end)
+          (fun _ => "") (fun _ => "") (fun _ => JOk).
+Definition e2e_get (text : string) (load : raw1) : option crun :=
+  match Eval.prepare 20 text with
+  | Ok p => get_tool e2e_lit e2e_re (fun _ => "") (fun _ => "") e2e_kw e2e_cr e2e_facts (fun _ => e2e_doc)
+              ex_args_get true load 0 p
+  | _ => None
+  end.
+Example C16_get_end_to_end_example :
+  e2e_get "*" (R1Doc (Some 0)) = Some (mkrun (Exit 0) [OText "1"; OJson 4] []) /\
+  e2e_get "b.c" (R1Doc (Some 0)) = Some (mkrun (Exit 0) [OText "x"] []) /\
+  e2e_get "zz" (R1Doc (Some 0)) = Some (mkrun (Exit 1) [] []) /\
+  e2e_get "a" (R1Doc None) = Some (mkrun (Exit 1) [] []).
+Proof. vm_compute. repeat split; reflexivity. Qed.
+Example C16_get_end_to_end_example_hyps :
+  match Eval.prepare 20 "*" with
+  | Ok p => SpecC15.in_fragment p = true /\
+            exists items, get_query e2e_lit e2e_re (fun _ => "") (fun _ => "") e2e_kw e2e_cr (fun _ => e2e_doc) p (Some 0)
+                          = (items, Eval.Done) /\ items <> [] /\ json_ok (map (result_obj e2e_facts) items) = true
+  | _ => False
+  end.
+Proof. vm_compute. split; [reflexivity|]. eexists. split; [reflexivity|]. split; [discriminate|reflexivity]. Qed.
+
+(* ------------------------------------------------------------------ *)
+(* yaml-diff = Cli.diff_main around Diff.compare_to *)
+
+(* the two documents the glue picks (positions li / ri of the two loaded streams) go through the
+   differ model; [report] is get_report's order, any permutation of compare_to's entries (its sort by
+   line / column is not modelled); every entry renders.  Exit 0 exactly when the model's entries show
+   no difference, exit 1 exactly when they do, and the printed entries are those the options select *)
+Theorem C16_diff_end_to_end :
+  forall path_eq cfg (doc_of : nat -> node) renders estr a lhs rhs li ri l r es report,
+    dr_picked (diff_main estr a lhs rhs (LOk [])) = Some (li, ri) ->
+    nth_error (src_stream estr lhs) li = Some l -> nth_error (src_stream estr rhs) ri = Some r ->
+    Diff.compare_to path_eq cfg (doc_of l) (doc_of r) = Ok es ->
+    Permutation report es ->
+    let entries := map (dentry_of renders) report in
+    all_render entries ->
+    let run := dr_run (diff_main estr a lhs rhs (LOk entries)) in
+    (r_status run = Exit 0 <-> C06Spec.shows_difference es = false) /\
+    (r_status run = Exit 1 <-> C06Spec.shows_difference es = true) /\
+    CliSpec.printed_entries (r_out run) =
+      (if n_quiet (da_noise a) then [] else selected_from a (map fst entries) 0).
+Proof. exact diff_end_to_end. Qed.
+Print Assumptions C16_diff_end_to_end.
+
+(* with C06_nonsame_iff_differ_positional_partial - the property's wording: yaml-diff exits 0 exactly
+   when the two documents are data-equal.  Guards inherited from C06: positional comparison at every
+   list (--arrays position and --aoh position|dpos, the defaults), real documents (unique scalar
+   keys), no tagged nodes *)
+Theorem C16_diff_exit_iff_data_equal :
+  forall path_eq cfg hm (doc_of : nat -> node) renders estr a lhs rhs li ri l r es report,
+    C06Spec.uniform cfg Diff.ArrPosition hm -> hm = Diff.AohPosition \/ hm = Diff.AohDpos ->
+    C06Spec.wf_doc (doc_of l) = true -> C06Spec.wf_doc (doc_of r) = true ->
+    C06Spec.untagged (doc_of l) = true -> C06Spec.untagged (doc_of r) = true ->
+    dr_picked (diff_main estr a lhs rhs (LOk [])) = Some (li, ri) ->
+    nth_error (src_stream estr lhs) li = Some l -> nth_error (src_stream estr rhs) ri = Some r ->
+    Diff.compare_to path_eq cfg (doc_of l) (doc_of r) = Ok es ->
+    Permutation report es ->
+    let entries := map (dentry_of renders) report in
+    all_render entries ->
+    let run := dr_run (diff_main estr a lhs rhs (LOk entries)) in
+    (r_status run = Exit 0 <-> C06Spec.data_eq (doc_of l) (doc_of r) = true) /\
+    (r_status run = Exit 1 <-> C06Spec.data_eq (doc_of l) (doc_of r) = false).
+Proof. exact diff_exit_iff_data_equal. Qed.
+Print Assumptions C16_diff_exit_iff_data_equal.
+
+(* with C06_nonsame_iff_differ_partial: every uniform option pair without identity keys - exit 0
+   exactly when the documents are equal up to what the options disregard *)
+Theorem C16_diff_exit_iff_equiv :
+  forall path_eq cfg am hm (doc_of : nat -> node) renders estr a lhs rhs li ri l r es report,
+    C06Spec.uniform cfg am hm -> C06Spec.unkeyed hm = true ->
+    C06Spec.wf_doc (doc_of l) = true -> C06Spec.wf_doc (doc_of r) = true ->
+    C06Spec.untagged (doc_of l) = true -> C06Spec.untagged (doc_of r) = true ->
+    dr_picked (diff_main estr a lhs rhs (LOk [])) = Some (li, ri) ->
+    nth_error (src_stream estr lhs) li = Some l -> nth_error (src_stream estr rhs) ri = Some r ->
+    Diff.compare_to path_eq cfg (doc_of l) (doc_of r) = Ok es ->
+    Permutation report es ->
+    let entries := map (dentry_of renders) report in
+    all_render entries ->
+    let run := dr_run (diff_main estr a lhs rhs (LOk entries)) in
+    (r_status run = Exit 0 <-> C06Spec.equiv am hm (doc_of l) (doc_of r) = true).
+Proof. exact diff_exit_iff_equiv. Qed.
+Print Assumptions C16_diff_exit_iff_equiv.
+
+(* the picked positions exist in the two streams, whatever the report *)
+Theorem C16_diff_picked_in_streams :
+  forall estr a lhs rhs rep li ri,
+    dr_picked (diff_main estr a lhs rhs rep) = Some (li, ri) ->
+    (exists l, nth_error (src_stream estr lhs) li = Some l) /\
+    (exists r, nth_error (src_stream estr rhs) ri = Some r).
+Proof. exact diff_picked_in_streams. Qed.
+Print Assumptions C16_diff_picked_in_streams.
+
+Definition e2e_cfg : Diff.dcfg := Diff.mkdcfg false [] [] None None None None.
+(* document 1 = {a: 1, b: {c: x}}, document 2 = {a: 2, b: {c: x}}, document 3 = document 1 loaded again *)
+Definition e2e_doc2 : node :=
+  NMap (mkinfo 10 None true None)
+    [(e2e_leaf 1 (PStr "a"), e2e_leaf 12 (PInt 2));
+     (e2e_leaf 3 (PStr "b"), NMap (mkinfo 14 None true None) [(e2e_leaf 5 (PStr "c"), e2e_leaf 6 (PStr "x"))])].
+Definition e2e_docs (i : nat) : node := match i with 2 => e2e_doc2 | _ => e2e_doc end.
+Definition e2e_diff (l r : nat) : option diff_run :=
+  match Diff.compare_to Diff.path_eq_real e2e_cfg (e2e_docs l) (e2e_docs r) with
+  | Ok es => Some (diff_main 9 ex_args_diff (ex_src "l.yaml" [l]) (ex_src "r.yaml" [r])
+                     (LOk (map (dentry_of (fun _ => None)) es)))
+  | _ => None
+  end.
+Example C16_diff_end_to_end_example :
+  option_map (fun x => (r_status (dr_run x), CliSpec.printed_entries (r_out (dr_run x)), dr_picked x)) (e2e_diff 1 2)
+    = Some (Exit 1, [0], Some (0, 0)) /\
+  option_map (fun x => (r_status (dr_run x), CliSpec.printed_entries (r_out (dr_run x)), dr_picked x)) (e2e_diff 1 3)
+    = Some (Exit 0, [], Some (0, 0)) /\
+  C06Spec.data_eq (e2e_docs 1) (e2e_docs 2) = false /\ C06Spec.data_eq (e2e_docs 1) (e2e_docs 3) = true.
+Proof. vm_compute. repeat split; reflexivity. Qed.
+Example C16_diff_end_to_end_example_hyps :
+  C06Spec.uniform e2e_cfg Diff.ArrPosition Diff.AohPosition /\
+  C06Spec.wf_doc e2e_doc = true /\ C06Spec.wf_doc e2e_doc2 = true /\
+  C06Spec.untagged e2e_doc = true /\ C06Spec.untagged e2e_doc2 = true /\
+  dr_picked (diff_main 9 ex_args_diff (ex_src "l.yaml" [1]) (ex_src "r.yaml" [2]) (LOk [])) = Some (0, 0) /\
+  nth_error (src_stream 9 (ex_src "l.yaml" [1])) 0 = Some 1.
+Proof. split; [split; intros nc; reflexivity|]. vm_compute. repeat split; reflexivity. Qed.
+
+(* ------------------------------------------------------------------ *)
+(* yaml-paths = Cli.paths_docs around PathsSearch.search_doc, against PathsPrint.process_doc *)
+
+(* one loaded document, no --except, no --values: fed with the search model's hits (adapter
+   CliLibSpec.results_of), the glue's per-document step prints exactly the lines PathsPrint's model of
+   process_yaml_file + print_results computes, in the same order, and its state is 1 exactly when an
+   expression was rejected.  Guards: every hit has a printable path (its text parses - C07), and the
+   file name is not a padded "-" (PathsPrint compares the name with "-" without stripping it) *)
+Theorem C16_paths_end_to_end :
+  forall lit re_search value_text mt sp o d a fl exprs file idx lines bad,
+    same_print_options a fl sp exprs ->
+    is_dash file = String.eqb file "-" ->
+    hits_printable lit re_search mt sp o exprs d ->
+    PathsPrint.process_doc lit re_search value_text mt sp o d fl exprs file (Z.of_nat idx) = Ok (lines, bad) ->
+    exists nh,
+      paths_docs a file [PDoc (results_of lit re_search mt sp o exprs d) []] idx 0 =
+        ((if bad then 1 else 0), hints nh ++ map (fun t => OPath t None) lines, None).
+Proof. exact paths_end_to_end. Qed.
+Print Assumptions C16_paths_end_to_end.
+
+Definition e2e_opts : PathsSearch.opts := PathsSearch.mkopts true false false true false false.
+Definition e2e_flags : PathsPrint.pflags := PathsPrint.mkpflags false false false false false.
+Definition e2e_pargs (exprs : list string) :=
+  mkpaths exprs [] false false false false false false true false false false false.
+Definition e2e_exprs : list string := ["=1"; "?"; "=x"].
+Example C16_paths_end_to_end_example :
+  PathsPrint.process_doc e2e_lit e2e_re (fun _ => Ok "") [] Dot e2e_opts e2e_doc e2e_flags e2e_exprs "f.yaml" 0
+    = Ok (["f.yaml/0[=1]: a"; "f.yaml/0[=x]: b.c"], true) /\
+  paths_docs (e2e_pargs e2e_exprs) "f.yaml" [PDoc (results_of e2e_lit e2e_re [] Dot e2e_opts e2e_exprs e2e_doc) []] 0 0
+    = (1, [OHint; OPath "f.yaml/0[=1]: a" None; OPath "f.yaml/0[=x]: b.c" None], None).
+Proof. vm_compute. split; reflexivity. Qed.
+Example C16_paths_end_to_end_example_hyps :
+  same_print_options (e2e_pargs e2e_exprs) e2e_flags Dot e2e_exprs /\
+  is_dash "f.yaml" = String.eqb "f.yaml" "-" /\
+  hits_printable e2e_lit e2e_re [] Dot e2e_opts e2e_exprs e2e_doc.
+Proof.
+  split; [repeat split|]. split; [reflexivity|].
+  intros e tm hs h I G S H.
+  destruct I as [<-|[<-|[<-|[]]]]; vm_compute in G; inversion G; subst tm; vm_compute in S; inversion S; subst hs;
+    simpl in H; repeat (destruct H as [<-|H]; [eexists; vm_compute; reflexivity|]); destruct H.
+Qed.
